@@ -39,8 +39,19 @@ func c19Parse(fields []reflect.StructField) (p *flags.Parser, err error, panicke
 	if isErrType(err, flags.ErrRequired) || isErrType(err, flags.ErrCommandRequired) {
 		err = nil // the empty command line lacks a required item: a parse result, not a setup error
 	}
+	if err != nil {
+		// a declaration error is replayed by every later use of the parser: a program that logs the first error and
+		// carries on must not find a parser that works on a misread declaration
+		if _, err2 := p.ParseArgs(nil); err2 == nil || fmt.Sprint(err2) != fmt.Sprint(err) {
+			c19Forgot = fmt.Sprintf("first use: %v; second use: %v", err, err2)
+		}
+		c19Replayed++
+	}
 	return p, err, nil
 }
+
+var c19Forgot string // set by c19Parse when the second use of a parser does not repeat the declaration error of the first
+var c19Replayed int
 
 func isErrType(err error, t flags.ErrorType) bool {
 	fe, ok := err.(*flags.Error)
@@ -124,6 +135,16 @@ func init() {
 		return reflect.StructField{Name: name, Type: t, Tag: reflect.StructTag(tag)}
 	}
 	body := func(c *explore.Ctx) {
+		defer func() {
+			if c19Replayed > 0 {
+				c.Hit("declaration-error-asked-twice")
+				c19Replayed = 0
+			}
+			if c19Forgot != "" {
+				c.Fail("declaration-error-not-repeated-by-the-next-use", c19Forgot)
+				c19Forgot = ""
+			}
+		}()
 		switch part := c.Choose(6); part {
 		case 0: // every short tag string over the scanner-relevant bytes
 			maxLen := 8
@@ -658,7 +679,7 @@ func init() {
 			"(v) every pair of placements {top, plain subgroup, namespaced, doubly namespaced} x {same name, near miss, collision created by namespaces} x {long, short incl. non-ASCII} x {declared through NewParser, on a subcommand's struct, added with (*Group).AddGroup to an existing group, NewNamedParser with NamespaceDelimiter \"-\" set before AddGroup}; (malformed tag strings of <= 5 bytes also on a field of a positional-args struct; every declaration whose first field's tag has an even length is followed by a successful AddGroup before the first use: a setup error must survive it); (vi) default tags on bool / []bool / *bool / []*bool / **bool / *[]bool / func() vs string types; " +
 			"oracle: exported model fields echo the attributes exactly, malformed tags => ErrTag, long short name => ErrShortNameTooLong, bool default => ErrInvalidTag, colliding names => ErrDuplicatedFlag, never a panic; distinct = distinct (part, cell, error class)",
 		Assumptions:  []string{"keys containing control characters or backslashes, and empty keys, are grey (no panic, any error typed)", "single-valued keys are repeated with the same value only", "falsy spellings false/no/0 do not set a mark on options (pinned by the repository's tests)"},
-		RequiredHits: []string{"tag-reject", "tag-accept", "tag-grey", "echo:default", "echo:choice", "mark:required", "short-too-long", "structure", "duplicate", "near-collision", "bool-default"},
+		RequiredHits: []string{"declaration-error-asked-twice", "tag-reject", "tag-accept", "tag-grey", "echo:default", "echo:choice", "mark:required", "short-too-long", "structure", "duplicate", "near-collision", "bool-default"},
 		Bound:        [2]string{"tag strings <= 8", "tag strings <= 9"},
 		BudgetS:      [2]int{170, 1500},
 	})
